@@ -25,47 +25,66 @@ def split_cases(lines):
     return cases
 
 
-def seq_differential(ctx, exe, model, count, tag):
-    """Random operation sequences on the real component and on the extracted model; per-case diff."""
+def seq_differential(ctx, exe, model, count, tag, chunk=10000):
+    """Random operation sequences on the real component and on the extracted model; per-case diff.
+    Runs in chunks (seed, seed+1, ...) to bound memory."""
     work = os.path.join(ctx.work, "seq")
     os.makedirs(work, exist_ok=True)
-    rc, out = core.sh([exe, "seq", str(ctx.seed), str(count), work])
-    if rc != 0:
-        raise RuntimeError("flat harness failed: " + out[-2000:])
-    stats = json.loads(out.strip().splitlines()[-1])
-    inp = open(os.path.join(work, "flat.in")).read()
-    impl = open(os.path.join(work, "flat.impl")).read().splitlines()
-    rc, mout = core.run_lines(model, inp, timeout=3000)
-    if rc != 0:
-        raise RuntimeError("flat model driver failed: " + mout[-2000:])
-    mdl = mout.splitlines()
-    in_cases = split_cases(inp.splitlines())
-    impl_cases = split_cases(impl)
-    mdl_cases = split_cases(mdl)
-    diffs = []
-    for i, ic in enumerate(impl_cases):
-        mc = mdl_cases[i] if i < len(mdl_cases) else ["<missing>"]
-        if ic != mc:
-            d = core.diff_lines(ic, mc)
-            diffs.append(dict(case_index=i, line=d[0], impl=d[1], model=d[2], input=in_cases[i] if i < len(in_cases) else []))
-    if len(mdl_cases) != len(impl_cases) and not diffs:
-        diffs.append(dict(case_index=min(len(mdl_cases), len(impl_cases)), line=0, impl="<count %d>" % len(impl_cases),
-                          model="<count %d>" % len(mdl_cases), input=[]))
-    # non-trivial cases for the property at hand (rule stated in the evidence)
     pat = re.compile(r"R\[[^\]]*\bR[0-9a-f]+=m") if tag == "C08" else re.compile(r"R\[[^\]]*\bC[0-9a-f]+=m")
-    nontrivial = set()
-    kinds = {}
-    for ic, oc in zip(in_cases, impl_cases):
-        k = ic[0].split()[2]
-        kinds[k] = kinds.get(k, 0) + 1
-        if any(pat.search(l) for l in oc if l.startswith("acc ")):
-            nontrivial.add("\n".join(ic[1:]))
-    sizes = sorted(len(c) for c in in_cases)
-    return dict(cases=len(in_cases), diffs=diffs, distinct=len({"\n".join(c[1:]) for c in in_cases}),
-                nontrivial=len(nontrivial), stats=stats, kinds=kinds,
+    total, diffs, distinct, nontrivial, kinds, sizes, samples = 0, [], set(), set(), {}, [], []
+    stats = {}
+
+    def add_stats(dst, src):
+        for k, v in src.items():
+            if isinstance(v, dict):
+                add_stats(dst.setdefault(k, {}), v)
+            else:
+                dst[k] = dst.get(k, 0) + v
+
+    done, ci = 0, 0
+    while done < count:
+        n = min(chunk, count - done)
+        seed = ctx.seed + ci
+        rc, out = core.sh([exe, "seq", str(seed), str(n), work])
+        if rc != 0:
+            raise RuntimeError("flat harness failed: " + out[-2000:])
+        add_stats(stats, json.loads(out.strip().splitlines()[-1]))
+        inp = open(os.path.join(work, "flat.in")).read()
+        impl = open(os.path.join(work, "flat.impl")).read().splitlines()
+        rc, mout = core.run_lines(model, inp, timeout=3000)
+        if rc != 0:
+            raise RuntimeError("flat model driver failed: " + mout[-2000:])
+        in_cases = split_cases(inp.splitlines())
+        impl_cases = split_cases(impl)
+        mdl_cases = split_cases(mout.splitlines())
+        for i, ic in enumerate(impl_cases):
+            mc = mdl_cases[i] if i < len(mdl_cases) else ["<missing>"]
+            if ic != mc and len(diffs) < 20:
+                d = core.diff_lines(ic, mc)
+                diffs.append(dict(seed=seed, case_index=i, line=d[0], impl=d[1], model=d[2],
+                                  input=in_cases[i] if i < len(in_cases) else [],
+                                  replay="target/release/flat seq %d %d <outdir> %d" % (seed, n, i)))
+        if len(mdl_cases) != len(impl_cases) and not diffs:
+            diffs.append(dict(seed=seed, case_index=min(len(mdl_cases), len(impl_cases)), line=0,
+                              impl="<count %d>" % len(impl_cases), model="<count %d>" % len(mdl_cases), input=[]))
+        for ic, oc in zip(in_cases, impl_cases):
+            k = ic[0].split()[2]
+            kinds[k] = kinds.get(k, 0) + 1
+            body = hash("\n".join(ic[1:]))
+            distinct.add(body)
+            if any(pat.search(l) for l in oc if l.startswith("acc ")):
+                nontrivial.add(body)
+            sizes.append(len(ic))
+        if not samples:
+            samples = [dict(input=in_cases[i][:12], impl=impl_cases[i][:6], model=mdl_cases[i][:6])
+                       for i in range(min(2, len(in_cases)))]
+        total += len(in_cases)
+        done += n
+        ci += 1
+    sizes.sort()
+    return dict(cases=total, diffs=diffs, distinct=len(distinct), nontrivial=len(nontrivial), stats=stats, kinds=kinds,
                 size=dict(min=sizes[0], median=sizes[len(sizes) // 2], max=sizes[-1]) if sizes else {},
-                samples=[dict(input=in_cases[i][:12], impl=impl_cases[i][:6], model=mdl_cases[i][:6])
-                         for i in range(min(2, len(in_cases)))])
+                samples=samples)
 
 
 def prop_oracle(ctx, exe, count):
@@ -121,7 +140,7 @@ def run_property(ctx, pid, block_kind, what):
                              replay="target/release/flatblock %s %d %d <outdir> %s" % (block_kind, ctx.seed, bl.get("cases", 0), l.split()[0])))
     broken = list(proof["problems"])
     for x in d["diffs"][:3]:
-        broken.append("op-sequence differential: case %d line %d impl `%s` model `%s`" % (x["case_index"], x["line"], x["impl"][:300], x["model"][:300]))
+        broken.append("op-sequence differential: seed %d case %d line %d impl `%s` model `%s`" % (x["seed"], x["case_index"], x["line"], x["impl"][:300], x["model"][:300]))
     if concrete:
         ctx.violation(what, dict(witness=concrete[0], more=concrete[1:], broken=broken, seed=ctx.seed,
                                  diff_inputs=[x["input"] for x in d["diffs"][:1]]), True)
